@@ -1425,6 +1425,11 @@ func (s *DownloadStream) seek(position int) error {
 	// compute offset
 	offset := position - (num * s.file.ChunkSize)
 
+	// check offset (the last chunk may be shorter than the file length says)
+	if offset > len(chunk.Data) {
+		return gridfs.ErrWrongSize
+	}
+
 	// set buffer
 	s.buffer = chunk.Data[offset:]
 
